@@ -281,6 +281,7 @@ def check(ctx):
     ctx.extra["fast_path"] = info["fast_path"]
     ctx.extra["slow_path"] = info["slow_path"]
     ctx.extra["drift"] = info["drift"]
+    ctx.extra["drift_not_recorded_for_tlc"] = info["drift_unrecorded"]      # (cap per family, see the driver; 0 unless the tree deviates massively)
     ctx.extra["skipped_not_encodable"] = info["skipped_not_encodable"]
     ctx.extra["random_cases"] = nrand
     ctx.extra["nested_shapes"] = {"tlc_forms_replayed": info["shaped_replayed"], "drift": info["shape_drift"], "random_trees": nrshape,
